@@ -6,14 +6,20 @@ import os
 
 PROPERTIES = ['C17', 'C02']
 BOUNDS = {
-    'quick': 'one operation from every state (all storage words symbolic, unused high bits zero): etl::bitset<N> for N in {1,7,8,9,31,32,33,63,64,65} '
-             '(every operation at {1,9,33,64,65}, a core list at the others); basic_bitset<N,uintW_t> for W=8: N in {7,8,9,17}, W=16: {15,16,17,33}, '
-             'W=32: {31,32,33,65}, W=64: {65} (core list); positions, values, operands symbolic over their full range; histories of 2 symbolic operations '
-             'from a bitset(unsigned long long) state (N in {9,33,65}; W=8 N=9,17); to_string with symbolic zero/one for N <= 33 and 65 (char; wchar_t, char16_t at N=9); '
-             'string constructors: N in {1,8,9} with string lengths 0..3 and N, N+1, N in {33,64,65} with lengths 3 (all overloads, pos/n/zero/one symbolic) and N (default-argument overloads), all characters symbolic',
-    'thorough': 'N in {1,7,8,9,31,32,33,63,64,65,127,128,129} x {etl::bitset, basic_bitset with uint8/16/32/64 words}, every operation; histories of 3 operations (4 for N <= 9); '
-                'to_string for every N (char), wchar_t/char16_t at N in {9,33}, capacity N and N+3; string constructors: N in {1,7,8,9} lengths 0..N+1, '
-                'N in {31,32,33,63,64,65} lengths {0,1,2,3,5,N} (+ N+1 for the symbolic-n overloads), N in {127,128,129} lengths {3,N} (default-argument overloads at N); wchar_t/char16_t at N=9',
+    'quick': 'one operation from every state (all storage words symbolic, unused high bits zero; positions, values, operands symbolic over their full range): '
+             'etl::bitset<N> for N in {1,7,8,9,31,32,33,63,64,65} (core operation list at every N, the remaining overloads/self-operand/binary-operator forms at {1,9,33,64,65}); '
+             'basic_bitset<N,uintW_t> for W=8: N in {7,8,9,17}, W=16: {15,16,17}, W=32: {31,32,33}, W=64: {65} (core list; remaining forms at the last N of each W); '
+             'histories of 2 symbolic operations (12 operation kinds) from bitset(unsigned long long) states, no invariant assumed: etl::bitset N in {9,33,65}, uint8 words N in {9,17}; '
+             'to_string with symbolic zero/one: N in {1,7,8,9,31,32,33} (three forms), N=65, wchar_t/char16_t and capacity N+3 at N=9; '
+             'string constructors (8 overload/default-argument forms, all characters, pos, n, zero, one symbolic): N in {1,8,9} with string lengths {0,1,2,3,N,N+1}; '
+             'N=65 length 3 all forms; N in {33,64} length 3 (string_view full form + default forms); N in {33,64,65} length N default-argument forms; wchar_t/char16_t at N=9 length 3; '
+             'oracle cross-check against libstdc++ std::bitset through the pipeline: one symbolic operation N in {1,9,33,64}, string constructor (N,len) in {(1,2),(9,3),(9,10),(33,5)}',
+    'thorough': 'N in {1,7,8,9,31,32,33,63,64,65,127,128,129}: etl::bitset every operation; basic_bitset with uint8/16/32 words core list at every N and every form at N = W+1 and 129; '
+                'uint64 words (same instantiation as inside etl::bitset) at N in {65,129}; histories of 3 operations (4 for N <= 9) for etl::bitset, uint8 and uint32 words at every N; '
+                'to_string (three forms + capacity N+3) at every N, wchar_t/char16_t at N in {9,33}; string constructors: N in {1,7,8,9} lengths {0,1,2,3,4,N-1,N,N+1} all forms, '
+                'N in {31,32,33,63,64,65} lengths {0,3,5} all forms, length N default forms and (ptr,n) form, length N+1 (ptr,n) form; N in {127,128,129} length 3 all forms, length N default forms; '
+                'wchar_t/char16_t at N=9 lengths {3,9}; oracle cross-check against std::bitset for every N <= 64 (string constructor lengths 3, and N, N+1 for N <= 9). '
+                'Not covered: symbolic pos/n with strings longer than 5 characters for N >= 31 (no verdict within 300 s), widths other than the 13 listed',
 }
 ASSUMPTIONS = [
     'C17: pre-states are written directly into the object: every storage word symbolic, the unused high bits of the last word zero (representation invariant). '
@@ -26,7 +32,8 @@ ASSUMPTIONS = [
     'C-string overloads with n == npos get non-zero characters and a terminator; with n != npos a block of exactly the stated length and n <= that length',
     'C17: to_ulong/to_ullong only exist for N <= 64 in etl (requires-clause), so the overflow case of std (N > 64, high bits set) cannot be expressed; etl has no shift operators and no to_string() returning std::string',
     'C17: count() is compared with the number of positions where test() is true (each test(i) is compared with the model in the same query); the sum is formed word by word so that the solver sees the same adder shape as the popcount loops',
-    'C17: oracle = boolean-array model harness/bitset/model.h written from [template.bitset]; validated natively against std::bitset (validate_model.cpp, run by spec.py) on random histories incl. string constructors and to_string',
+    'C17: oracle = boolean-array model harness/bitset/model.h written from [template.bitset]; validated natively against std::bitset (validate_model.cpp, run by spec.py on every C17 run: random histories incl. '
+    'string constructors with pos/n/zero/one and to_string) and symbolically against libstdc++ std::bitset through the pipeline for N <= 64 (q_model_vs_std, q_model_vs_std_str)',
     'C02: the string constructors are called with effective length <= N (TETL_PRECONDITION(len <= size())); everything else as for C17',
 ]
 _here = os.path.dirname(os.path.abspath(__file__))
@@ -101,12 +108,12 @@ def queries(tier, prop='C17'):
         ents = os.environ.get('C17_E')
         for n in [int(x) for x in os.environ['C17_N'].split(',')]:
             for w in [int(x) for x in os.environ.get('C17_W', '0').split(',')]:
-                for e in CORE + MORE + ['hist'] + ((BITSET_ONLY + TOSTR) if w == 0 else []):
+                for e in CORE + MORE + ['hist'] + ((BITSET_ONLY + TOSTR) if w == 0 else []) + (['model_vs_std'] if w == 0 and n <= 64 else []):
                     if not ents or e in ents.split(','):
                         add(e, n, w)
                 if w == 0:
                     for sn in [int(x) for x in os.environ.get('C17_SN', '3').split(',')]:
-                        for e in STR_SYM + STR_DFLT:
+                        for e in STR_SYM + STR_DFLT + (['model_vs_std_str'] if n <= 64 else []):
                             if not ents or e in ents.split(','):
                                 add(e, n, w, sn=sn, cht=int(os.environ.get('C17_CHT', '0')))
         return out
@@ -134,6 +141,10 @@ def queries(tier, prop='C17'):
                 add(e, ns[-1], w)
         for (n, w) in [(9, 0), (33, 0), (65, 0), (9, 8), (17, 8)]:
             add('hist', n, w, kh=2)
+        for n in [1, 9, 33, 64]:     # the oracle itself against libstdc++ std::bitset through the pipeline
+            add('model_vs_std', n, 0)
+        for (n, sn) in [(1, 2), (9, 3), (9, 10), (33, 5)]:
+            add('model_vs_std_str', n, 0, sn=sn)
         for n in [1, 7, 8, 9, 31, 32, 33]:
             for e in TOSTR:
                 add(e, n, 0)
@@ -165,6 +176,10 @@ def queries(tier, prop='C17'):
             for e in TOSTR:
                 add(e, n, 0)
             add('to_string', n, 0, scap=n + 3)
+        for n in [x for x in ALLW if x <= 64]:
+            add('model_vs_std', n, 0)
+            for sn in ((3, n, n + 1) if n <= 9 else (3,)):
+                add('model_vs_std_str', n, 0, sn=sn)
         for n in (65, 129):      # uint64_t words: the same instantiation as the one inside etl::bitset<N> (size_t)
             for e in CORE + MORE:
                 add(e, n, 64)
